@@ -42,7 +42,10 @@ PROBES = ["remove_first_value", "remove_last_value", "remove_middle_value",
           "remove_next_to_comment_line", "comma_before_comment_line", "tab_continuation",
           "append_after_trailing_separator", "two_views_committed_in_reverse_open_order",
           "untouched_commit", "abort_discards_changes", "refused_edit", "held_reference_used",
-          "first_value_starts_with_hash", "commit_on_unterminated_last_field", "gc_step"]
+          "first_value_starts_with_hash", "commit_on_unterminated_last_field", "gc_step",
+          "long_lived_dict_view", "reference_iterator_opened",
+          "streaming_removal_through_iterator", "later_value_removed_while_iterator_suspended",
+          "field_added_while_view_open", "field_moved_while_view_open"]
 
 WSV = ["amd64", "i386", "any", "linux-any", "x", "a1", "#h", "!hurd", "[x]", "ü"]
 CMV = ["libc6", "foo (>= 1.0)", "x y", "bb", "a | b", "#h", "${misc:Depends}", "q"]
@@ -145,13 +148,26 @@ def generate(seed, run, tier):
          "replace": rs.choice([0, 1, 2]), "ref_set": rs.choice([0, 1, 2]),
          "ref_remove": rs.choice([0, 1, 2]), "commit": rs.choice([2, 3]),
          "abort": rs.choice([0, 0, 1]), "bad": rs.choice([0, 1]), "gc": rs.choice([0, 1])}
+    w.update({"it_open": rs.choice([0, 1, 2]), "it_next": rs.choice([0, 2, 4]),
+              "add_field": rs.choice([0, 0, 1]), "move_field": rs.choice([0, 0, 1])})
     kindsl = [k for k, v in w.items() for _ in range(v)]
     steps = []
     listnames = LISTNAMES[:nlist]
+    nadd = 0
     for _ in range(rs.choice([3, 6, 12, 30])):
         k = rq.choice(kindsl)
         f = rq.choice(listnames)
         st = {"op": k, "field": f}
+        if k == "it_next":
+            st["act"] = rq.choice(["none", "none", "set", "remove"])
+            st["val"] = rq.choice(WSV if kinds[f] == "ws" else CMV)
+        if k == "add_field":
+            nadd += 1
+            st["name"] = "New-%d" % nadd
+            st["val"] = rq.choice(["v", "two words", "x\n y"])
+        if k == "move_field":
+            st["how"] = rq.choice(["order_last", "order_first"])
+            st["target"] = rq.choice(listnames + OTHER)
         pool = WSV if kinds[f] == "ws" else CMV
         if k == "open":
             st["interp"] = kinds[f]
@@ -170,7 +186,9 @@ def generate(seed, run, tier):
     # close everything at the end so that every change gets judged
     for f in listnames:
         steps.append({"op": "commit", "field": f})
-    return {"world": {"doc": doc.to_json(), "kinds": kinds}, "trace": steps}
+    return {"world": {"doc": doc.to_json(), "kinds": kinds,
+                      # one long-lived dict view per interpretation, or a new one per lookup
+                      "reuse_dict_view": rs.random() < 0.4}, "trace": steps}
 
 
 def describe(case):
@@ -185,6 +203,21 @@ def _find(doc, name):
             if s.name == name:
                 return pi, j
     return None
+
+
+def _iter_after_removal(V, k, slot_removed, out):
+    """A value was removed by another route while a reference iterator is suspended.  The
+    iterator stays usable only while the value it last yielded is still in the list (it
+    walks the live chain from there); otherwise the client abandons it."""
+    if V["it"] is None:
+        return
+    if not V["itlive"] or slot_removed == V["itcur"]:
+        V["it"] = None
+        return
+    if k < V["itpos"]:
+        V["itpos"] -= 1
+    else:
+        out.probe("later_value_removed_while_iterator_suspended")
 
 
 def valid_value(v, kind):
@@ -216,11 +249,22 @@ def execute(case):
     gc_was = gc.isenabled()
     gc.disable()
 
+    reuse = bool(case["world"].get("reuse_dict_view"))
+    dviews = {}
+
+    def dict_view(kind):
+        if not reuse:
+            return para.as_interpreted_dict_view(interp[kind])
+        if kind not in dviews:
+            dviews[kind] = para.as_interpreted_dict_view(interp[kind])
+            out.probe("long_lived_dict_view")
+        return dviews[kind]
+
     def read_check(name, si, op):
-        """A fresh view and the splitter both equal what the document says."""
+        """A lookup through the dict view and the splitter both equal what the document says."""
         pi, j = _find(doc, name)
         want = split_list(doc.paras[pi][j].after_colon, kinds[name])
-        v = para.as_interpreted_dict_view(interp[kinds[name]])[name]
+        v = dict_view(kinds[name])[name]
         got = list(v)
         if got != want:
             raise Violation("list-view-differs-from-splitting-the-field-text", op,
@@ -241,6 +285,58 @@ def execute(case):
                 inter.append(("gc",))
                 out.steps += 1
                 continue
+            if op == "add_field":
+                # another client adds a field to the paragraph while views are open
+                before_doc = f.dump()
+                para[st["name"]] = st["val"]
+                d = f.dump()
+                flat = [s_ for p_ in doc.paras for s_ in p_]
+                p0 = doc.paras[0]
+                if not p0[-1].body.endswith("\n"):
+                    p0[-1].body += "\n"
+                pre = doc.leading + "".join(s_.text for s_ in p0)
+                post = (doc.seps[0] if doc.seps else "") + "".join(
+                    "".join(s_.text for s_ in p_) + (doc.seps[i_ + 1] if i_ + 1 < len(doc.seps)
+                                                      else "")
+                    for i_, p_ in enumerate(doc.paras[1:])) + doc.trailing
+                if not (d.startswith(pre) and d.endswith(post) and len(d) >= len(pre) + len(post)):
+                    raise Violation("bytes-outside-the-edited-field-changed", op,
+                                    {"step": si, "dump": d, "expected_prefix": pre,
+                                     "expected_suffix": post})
+                x = d[len(pre):len(d) - len(post)]
+                mp = mini_parse_field(x)
+                if mp is None or mp[0] != st["name"]:
+                    raise Violation("document-no-longer-valid-after-commit", op,
+                                    {"step": si, "dump": d, "new_field_text": x})
+                p0.append(Seg("", x))
+                out.probe("field_added_while_view_open" if views else "field_added")
+                inter.append(("para", "add_field"))
+                out.steps += 1
+                continue
+            if op == "move_field":
+                tgt = _find(doc, st["target"])
+                if tgt is None:
+                    continue
+                p0 = doc.paras[0]
+                if not p0[-1].body.endswith("\n") and len(p0) > 1:
+                    p0[-1].body += "\n"
+                seg_ = p0.pop(tgt[1])
+                if st["how"] == "order_last":
+                    p0.append(seg_)
+                else:
+                    p0.insert(0, seg_)
+                getattr(para, st["how"])(st["target"])
+                d = f.dump()
+                want_d = doc.text()
+                if d != want_d and not (not want_d.endswith("\n") and d == want_d + "\n"):
+                    raise Violation("bytes-outside-the-edited-field-changed", op,
+                                    {"step": si, "dump": d, "want": want_d})
+                if d != want_d:
+                    p0[-1].body += "\n"
+                out.probe("field_moved_while_view_open" if views else "field_moved")
+                inter.append(("para", st["how"]))
+                out.steps += 1
+                continue
             if name not in kinds or _find(doc, name) is None:
                 continue
             kind = kinds[name]
@@ -250,12 +346,13 @@ def execute(case):
                 if name in views:
                     continue
                 want = read_check(name, si, "open")
-                lv = para.as_interpreted_dict_view(interp[kind])[name]
+                lv = dict_view(kind)[name]
                 lv.__enter__()
                 slots = list(range(len(want)))
                 refs = dict(zip(slots, lv.iter_value_references()))
                 views[name] = {"v": lv, "m": list(want), "slots": slots, "refs": refs,
-                               "changed": False, "next": len(want)}
+                               "changed": False, "next": len(want), "it": None, "itpos": 0,
+                               "itcur": None, "itlive": True}
                 open_order.append(name)
                 lines = seg.after_colon.splitlines(True)
                 if any(l.startswith("\t") for l in lines[1:]):
@@ -351,6 +448,62 @@ def execute(case):
                 read_check(name, si, op)
                 out.states.add(stable_hash(doc.to_json()))
                 continue
+            # ---- a suspended reference iterator (streaming edits through references)
+            if op == "it_open":
+                V["it"] = lv.iter_value_references()
+                V["itpos"] = 0
+                V["itcur"] = None
+                V["itlive"] = True
+                out.probe("reference_iterator_opened")
+                inter.append((name, "it_open"))
+                out.steps += 1
+                continue
+            if op == "it_next":
+                if V["it"] is None:
+                    continue
+                pos = V["itpos"]
+                try:
+                    ref = next(V["it"])
+                except StopIteration:
+                    ref = None
+                if pos >= len(m):
+                    if ref is not None:
+                        where.update(position=pos, extra_reference=ref.value)
+                        raise Violation("reference-iterator-yields-beyond-the-list", op, where)
+                    V["it"] = None
+                    continue
+                if ref is None:
+                    where.update(position=pos, want=m[pos])
+                    raise Violation("reference-iterator-ended-early", op, where)
+                if ref.value != m[pos]:
+                    where.update(position=pos, reference_value=ref.value, want=m[pos])
+                    raise Violation("value-reference-reads-wrong-value", op, where)
+                act = st.get("act", "none")
+                V["itcur"] = V["slots"][pos]
+                V["itlive"] = True
+                if act == "set":
+                    ref.value = st["val"]
+                    m[pos] = st["val"]
+                    V["changed"] = True
+                    V["itpos"] = pos + 1
+                elif act == "remove" and len(m) > 1:
+                    ref.remove()
+                    V["refs"].pop(V["slots"][pos], None)
+                    del m[pos]
+                    del V["slots"][pos]
+                    V["changed"] = True
+                    V["itlive"] = False      # the iterator now stands on a removed value
+                    out.probe("streaming_removal_through_iterator")
+                else:
+                    V["itpos"] = pos + 1
+                log.add(si, "it_next", name, pos, act)
+                inter.append((name, "it_next:" + act))
+                out.steps += 1
+                got = list(lv)
+                if got != m:
+                    where.update(view_lists=got, want=m)
+                    raise Violation("open-view-differs-from-edited-list", op, where)
+                continue
             # ---- edits inside the transaction
             which = st.get("which", 0)
             val = st.get("val")
@@ -383,6 +536,8 @@ def execute(case):
                         out.probe("append_after_trailing_separator")
                     lv.append(val)
                     if not expect_err:
+                        if V["it"] is not None and not V["itlive"]:
+                            V["it"] = None     # iterator stands on a removed value: abandoned
                         m.append(val)
                         V["slots"].append(V["next"])
                         V["next"] += 1
@@ -390,9 +545,11 @@ def execute(case):
                     # remove() takes the first instance of that value
                     k = m.index(m[k])
                     lv.remove(m[k])
+                    slot_removed = V["slots"][k]
                     V["refs"].pop(V["slots"][k], None)
                     del m[k]
                     del V["slots"][k]
+                    _iter_after_removal(V, k, slot_removed, out)
                 elif how == "replace":
                     k = m.index(m[k])
                     lv.replace(m[k], val)
@@ -415,9 +572,11 @@ def execute(case):
                             m[k] = val
                     else:
                         ref.remove()
+                        slot_removed = slot
                         V["refs"].pop(slot, None)
                         del m[k]
                         del V["slots"][k]
+                        _iter_after_removal(V, k, slot_removed, out)
                 exc = None
             except ValueError as e:
                 exc = "ValueError"
